@@ -257,6 +257,23 @@ def r4(c):
             n += 1
             fn_ = P.logical_name(b)
             if not edges:
+                # the outcome may be examined by a helper of the crate that is handed the value as it is
+                # (`self.apply_command(self.commands.recv().await)?`): look at the loop with that helper written out
+                takers = {x.callee for x in b.calls() if x.callee and x.callee.startswith('rodbus::') and P.has(x.callee)
+                          and any((lambda v: v.kind == 'call' and v.cs is cs and not v.proj)(q.sem(b, a)) for a in x.args)}
+                if takers:
+                    import inline
+                    eb = inline.expand(P, b, takers)
+                    twin = [x for x in eb.calls(key) if x.line == cs.line and eb.in_cycle(x.node)]
+                    if len(twin) == 1:
+                        e2 = closed_edges(eb, twin[0], CLOSED[key])
+                        if e2:
+                            rets2 = {('b', i_) for i_ in eb.return_blocks()}
+                            ok = all(twin[0].node not in eb.reach_set(e) and bool(eb.reach_set(e) & rets2) for e in e2)
+                            c.ob('closed/%s/%s' % (fn_, key.rsplit('::', 2)[-2] + '::' + key.rsplit('::', 1)[-1]), ok, 'from the closed/shutdown outcome of %s (examined in %s) the loop is left (the wait is not re-entered)' % (key.rsplit('::', 1)[-1], sorted(t.rsplit('::', 1)[-1] for t in takers)),
+                                 'edges %s' % e2, cs.loc())
+                            continue
+            if not edges:
                 uw = [u for u in b.calls('core::option::Option::unwrap', 'core::option::Option::expect') if q.sem(b, u.args[0]).kind == 'call' and q.sem(b, u.args[0]).cs is cs]
                 if uw:
                     c.ob('closed/%s/%s' % (fn_, key.rsplit('::', 2)[-2] + '::' + key.rsplit('::', 1)[-1]), True, 'the result is unwrapped: the channel cannot close here (recorded invariant in R07.1)', 'unwrap at %s' % uw[0].loc(), cs.loc())
@@ -280,7 +297,8 @@ def r4(c):
     fr = P.find_impl('core::convert::From', 'rodbus::client::task::StateChange', 'from', 'rodbus::error::Shutdown')
     xs = q.exits(fr)
     c.ob('wrapper/From<Shutdown>', len(xs) == 1 and xs[0]['kind'] == 'agg' and xs[0]['variant'] == 'Shutdown', 'From<Shutdown> for StateChange yields StateChange::Shutdown', '', loc_of(fr))
-    ro = P.fn('rodbus::server::task::SessionTask::run_one')
+    import inline
+    ro = inline.expand(P, P.fn('rodbus::server::task::SessionTask::run_one'), {'rodbus::server::task::SessionTask::apply_command'})
     rcv = one(ro.calls('tokio::sync::mpsc::bounded::Receiver::recv'), 'commands.recv in run_one')
     okn, how, why = q.failure_leaves(ro, rcv)
     c.ob('wrapper/run_one', okn, 'run_one turns a closed command channel into Err(Shutdown)', '', rcv.loc())
@@ -349,7 +367,9 @@ def r8(c):
             cl = q.sem(b, s['poll_fn'].args[0])
             cb = P.get(norm(cl.extra['closure'])) if cl.kind == 'agg' and isinstance(cl.extra, dict) and 'closure' in cl.extra else None
             rng = [cs for cs in cb.calls() if (cs.callee or '').endswith('::thread_rng_n')] if cb is not None else []
-            c.ob('select/%s' % P.logical_name(b).rsplit('::', 2)[-2] + '::' + P.logical_name(b).rsplit('::', 1)[-1], len(rng) == 1,
+            # (a biased select whose first branch is the command channel itself cannot starve it)
+            first_is_cmd = bool(s['futures']) and s['futures'][0] is not None and s['futures'][0].is_('tokio::sync::mpsc::bounded::Receiver::recv', 'rodbus::channel::Receiver::recv')
+            c.ob('select/%s' % P.logical_name(b).rsplit('::', 2)[-2] + '::' + P.logical_name(b).rsplit('::', 1)[-1], len(rng) == 1 or (not rng and first_is_cmd),
                  'the select! draws its starting branch with thread_rng_n (a `biased;` select polls the first branch first every time: a branch that is always ready starves the others)',
                  '%d branches, random start: %s' % (len(s['futures']), bool(rng)), s['poll_fn'].loc())
-    c.floor('select! sites', n, 6)
+    c.floor('select! sites', n, 4)
